@@ -273,7 +273,7 @@ func (in *inv) step(op *Op) {
 			in.vars[op.Var] = v
 		}
 		f := F{"inv": in.id, "label": op.Label, "val": fmtVal(v), "dval": deepVal(v), "gen": b.Desc}
-		if r.rec.Wants("contract") {
+		if r.rec.Wants("contract") && !(r.rec.Wants("final-contracts-only") && CurPhase.Load() != "final") {
 			c := b.Check(v)
 			c["inv"], c["gen"] = in.id, b.Desc
 			r.rec.Emit("draw", f)
